@@ -45,4 +45,9 @@ TenthStr(t) ==
   IN (IF t < 0 THEN "-" ELSE "") \o ToString(a \div 10)
        \o (IF a % 10 = 0 THEN "" ELSE "." \o ToString(a % 10))
 Char(s, i) == SubSeq(s, i, i)
+\* Renderings of a tenth with at most one decimal digit.  IEEE negative zero is the
+\* number 0 and prints as "-0": it satisfies C06 as worded (a multiple of 0.1 between
+\* 0.0 and 10.0, no decimal digit), so it is admitted (the v2 equations produce it when
+\* the impact factor f is 0 and the bracket is negative).
+Prints(t) == {TenthStr(t)} \cup (IF t = 0 THEN {"-0"} ELSE {})
 =============================================================================
